@@ -189,6 +189,52 @@ func apiNames(pkg string, release int, goos, goarch string) map[string]bool {
 	return names
 }
 
+var methodCache = map[string]map[string]bool{}
+
+// apiHasMethod: is method m of interface pkg.iface declared by an api file up to go1.<release>?
+// (interfaces whose methods are listed nowhere, e.g. embedded-only ones, are not filtered).
+func apiHasMethod(pkg, iface, m string, release int) bool {
+	key := fmt.Sprintf("%s.%s@%d", pkg, iface, release)
+	set, ok := methodCache[key]
+	if !ok {
+		set = map[string]bool{}
+		later := map[string]bool{}
+		goroot := runtime.GOROOT()
+		for r := 0; r <= 40; r++ {
+			fn := fmt.Sprintf("go1.%d.txt", r)
+			if r == 0 {
+				fn = "go1.txt"
+			}
+			b, err := os.ReadFile(filepath.Join(goroot, "api", fn))
+			if err != nil {
+				continue
+			}
+			prefix := "pkg " + pkg + ", type " + iface + " interface, "
+			for _, l := range strings.Split(string(b), "\n") {
+				if strings.HasPrefix(l, prefix) {
+					name := strings.TrimPrefix(l, prefix)
+					if i := strings.IndexAny(name, "( "); i >= 0 {
+						name = name[:i]
+					}
+					if r <= release {
+						set[name] = true
+					} else {
+						later["later:"+name] = true
+					}
+				}
+			}
+		}
+		for k := range later {
+			set[k] = true
+		}
+		methodCache[key] = set
+	}
+	if set["later:"+m] && !set[m] {
+		return false
+	}
+	return true
+}
+
 // ---- checking one table file ----
 
 func checkFile(tf tableFile, imp *srcImporter) fileResult {
@@ -277,9 +323,16 @@ func checkFile(tf tableFile, imp *srcImporter) fileResult {
 			res.Counts["api_names_required"]++
 			if !keys[n] {
 				// an api name that the installed sources no longer export at package level for this platform is not demanded
-				if o := pkg.Scope().Lookup(n); o == nil {
+				o := pkg.Scope().Lookup(n)
+				if o == nil {
 					res.Counts["api_names_absent_from_installed_sources"]++
 					continue
+				}
+				if tn, ok := o.(*types.TypeName); ok {
+					if it, ok := tn.Type().Underlying().(*types.Interface); ok && !it.IsMethodSet() {
+						res.Counts["constraint_interfaces_not_bindable"]++
+						continue
+					}
 				}
 				if pkgPath == "syscall" && tf.Dir == "syscall" {
 					// the syscall table is split: process-control entries live in the unrestricted table
@@ -294,6 +347,15 @@ func checkFile(tf tableFile, imp *srcImporter) fileResult {
 		}
 	}
 	return res
+}
+
+func importsPath(imports map[string]string, path string) bool {
+	for _, p := range imports {
+		if p == path {
+			return true
+		}
+	}
+	return false
 }
 
 func selector(e ast.Expr) (string, string, bool) {
@@ -330,7 +392,7 @@ func checkEntry(tf tableFile, res *fileResult, bad func(pkg, name, kind, what, v
 	}
 	arg := call.Args[0]
 	short := pkgPath[strings.LastIndex(pkgPath, "/")+1:]
-	qualOK := func(q string) bool { return imports[q] == pkgPath }
+	qualOK := func(q string) bool { return imports[q] == pkgPath || (imports[q] == "" && q == pkg.Name() && importsPath(imports, pkgPath)) }
 	lookup := func(n string) types.Object {
 		o := pkg.Scope().Lookup(n)
 		if o == nil || !o.Exported() {
@@ -341,7 +403,7 @@ func checkEntry(tf tableFile, res *fileResult, bad func(pkg, name, kind, what, v
 	// wrapper entries "_I"
 	if strings.HasPrefix(name, "_") {
 		res.Counts["wrappers"]++
-		checkWrapper(res, bad, pkgPath, pkg, short, name, arg, wrappers, methods)
+		checkWrapper(tf.Release, res, bad, pkgPath, pkg, short, name, arg, wrappers, methods)
 		return
 	}
 	// documented replacements
@@ -390,7 +452,7 @@ func checkEntry(tf tableFile, res *fileResult, bad func(pkg, name, kind, what, v
 		switch o := lookup(name).(type) {
 		case *types.Func:
 		case *types.Const:
-			if b, ok := o.Type().Underlying().(*types.Basic); ok && b.Info()&types.IsUntyped != 0 {
+			if b, ok := o.Type().Underlying().(*types.Basic); ok && b.Info()&types.IsUntyped != 0 && b.Kind() != types.UntypedBool {
 				bad(pkgPath, name, "const", "untyped constant bound by value (loses its untypedness)", "")
 			}
 		default:
@@ -490,7 +552,7 @@ func exprString(e ast.Expr) string {
 
 // checkWrapper: "_I": reflect.ValueOf((*_pkg_I)(nil)); struct _pkg_I{IValue; W<M> func...}; one method per
 // interface method, same parameter/variadic/result lists, body forwards to the field of the same name.
-func checkWrapper(res *fileResult, bad func(pkg, name, kind, what, val string), pkgPath string, pkg *types.Package, short, name string, arg ast.Expr, wrappers map[string]*ast.StructType, methods map[string][]*ast.FuncDecl) {
+func checkWrapper(release int, res *fileResult, bad func(pkg, name, kind, what, val string), pkgPath string, pkg *types.Package, short, name string, arg ast.Expr, wrappers map[string]*ast.StructType, methods map[string][]*ast.FuncDecl) {
 	iname := name[1:]
 	wname := ""
 	if c, ok := arg.(*ast.CallExpr); ok {
@@ -532,6 +594,10 @@ func checkWrapper(res *fileResult, bad func(pkg, name, kind, what, val string), 
 	for i := 0; i < it.NumMethods(); i++ {
 		m := it.Method(i)
 		if !m.Exported() {
+			continue
+		}
+		if !apiHasMethod(pkgPath, iname, m.Name(), release) {
+			res.Counts["interface_methods_newer_than_release"]++
 			continue
 		}
 		res.Counts["wrapper_methods"]++
